@@ -80,11 +80,15 @@ tallies and the biconditionals are checked on the real code after every block by
 in the correspondence run, but their preservation is not yet a theorem: `invStaking_preserved_partial`. -/
 
 /-- the operations for which preservation of the whole `InvStaking` is a theorem -/
-inductive StatusOp
+inductive StakingOp
+  | stake (signer a : Addr) (amount : Nat) (committees : List Nat) (delegate compound : Bool) (output : Addr)
+  | editStake (signer a : Addr) (amount : Nat) (committees : List Nat) (compound : Bool) (output : Addr)
   | unstake (a : Addr) | pause (a : Addr) | unpause (a : Addr)
   | slashToZero (a : Addr) (val : Validator) (chain percent : Nat)
 
-def StatusOp.apply : StatusOp → Ledger → M Ledger
+def StakingOp.apply : StakingOp → Ledger → M Ledger
+  | .stake s a x cs d c o, L => handleStake L s a x cs d c o
+  | .editStake s a x cs c o, L => handleEditStake L s a x cs c o
   | .unstake a, L => handleUnstake L a
   | .pause a, L => handlePause L a
   | .unpause a, L => handleUnpause L a
@@ -92,19 +96,25 @@ def StatusOp.apply : StatusOp → Ledger → M Ledger
 
 /-- side conditions: deferred-action heights are not 0 mod 2^64; for the slash: it is applied to the validator's
 current record and its stake rounds to zero -/
-def StatusOp.Ok (L : Ledger) : StatusOp → Prop
+def StakingOp.Ok (L : Ledger) : StakingOp → Prop
   | .unstake _ => (L.height + L.params.unstakingBlocks) % 2 ^ 64 ≠ 0 ∧ (L.height + L.params.delegateUnstakingBlocks) % 2 ^ 64 ≠ 0
   | .pause _ => (L.height + L.params.maxPauseBlocks) % 2 ^ 64 ≠ 0
-  | .unpause _ => True
   | .slashToZero a val chain percent => valGet? L a = some val ∧
       ∀ p' cs' L0, slashScope L a val chain percent = some (p', cs', L0) → stakeAfterSlash val.stake p' = 0
+  | _ => True
 
-theorem invStaking_preserved_partial {L L' : Ledger} {op : StatusOp} (hs : InvStaking L) (hok : op.Ok L)
+/-- **`InvStaking` is preserved** by stake, edit-stake (incl. the committee / delegation re-indexing and the tallies of
+every committee), unstake, pause, unpause and by a slash that rounds the stake to zero. `_partial`: the non-zero
+slash, reward compounding inside `EndBlock` (same `UpdateValidatorStake`, proved: `updateValidatorStake_inv`), the
+parameter-change conformance and genesis are not yet lifted to this statement. -/
+theorem invStaking_preserved_partial {L L' : Ledger} {op : StakingOp} (hi : InvSupply L) (hs : InvStaking L) (hok : op.Ok L)
     (h : op.apply L = .ok L') : InvStaking L' := by
   have hU : (2 : Nat) ^ 64 = U64 := by decide
   cases op with
-  | unstake a => simp only [StatusOp.Ok, hU] at hok; exact handleUnstake_inv hs hok h
-  | pause a => simp only [StatusOp.Ok, hU] at hok; exact handlePause_inv hs hok h
+  | stake s a x cs d c o => exact handleStake_inv' hs h
+  | editStake s a x cs c o => exact handleEditStake_inv' hi hs h
+  | unstake a => simp only [StakingOp.Ok, hU] at hok; exact handleUnstake_inv hs hok h
+  | pause a => simp only [StakingOp.Ok, hU] at hok; exact handlePause_inv hs hok h
   | unpause a => exact handleUnpause_inv hs h
   | slashToZero a val chain percent => exact slashValidator_zero_inv hs hok.1 hok.2 h
 
